@@ -254,4 +254,19 @@ CHECKS = {
         parts=[dict(pkg="./redis-shake/dbSync", harness=["dbsync"], test="^TestVerif_C07$", shards=16, gomaxprocs=1, budget=dict(quick=75, thorough=1200)),
                dict(pkg="./redis-shake", harness=["run"], test="^TestVerif_C07R$", shards=16, gomaxprocs=1, budget=dict(quick=75, thorough=1200))],
     ),
+    "C16": dict(
+        level="model_checking",
+        engine="stimx (synctest) + exhaustive environment product",
+        technique="exhaustive product of source keyspaces x every SCAN pagination (all compositions incl. empty pages) x vanishing-key events x configuration, driving the real rump executor (fetcher/writer/receiver goroutines, QoS ticker) inside a fake-clock bubble against a model source and a model target",
+        text="The real dbRumperExecutor.exec runs against a model source whose SCAN answers follow a scripted pagination (every way to cut a database's key list into "
+             "pages of <=3 keys, with empty pages at the start, middle or end, arbitrary non-zero cursors) and can make one key vanish between SCAN and DUMP or between "
+             "DUMP and PTTL, and a model target (real redigo clients on in-memory connections, fake clock for the QoS and statistics tickers). Crossed with "
+             "scan.key_number 1-3, big_key_threshold below/above the payloads, key_exists none/rewrite with and without a pre-existing target key, target.db, key and db "
+             "filters, and key-file driven scans with 0..2*page+1 lines. Oracle after exec returns: every surviving, passing key has the source's logical value in "
+             "the right database; its remaining TTL at the moment of RESTORE equals the PTTL the source answered (no expiry stays no expiry); vanished and filtered "
+             "keys are skipped without stopping; the run returns within bounded fake time; a busy key under key_exists=none may stop the run but must not be overwritten silently.",
+        note="the order in which databases are visited is a Go map order (not controlled; the oracle is on the final state only); cluster and special-cloud scanners are out of scope",
+        rule="case = one point of the product; states = distinct cases; transitions = 4 per case (scan, dump/pttl, restore, confirm phases); non-trivial = all cases",
+        parts=[dict(pkg="./redis-shake", harness=["run"], test="^TestVerif_C16$", shards=16, gomaxprocs=2, budget=dict(quick=75, thorough=1200))],
+    ),
 }
